@@ -885,10 +885,12 @@ func (w *Writer) OpenStream(ref Reference, dict Dict, filters ...Filter) (io.Wri
 		streamDict[key] = inlined
 	}
 
-	// The filters named in the dictionary come first in the chain which ends
-	// up in the file, the filters argument is appended to them.  The rules
-	// for Crypt filters apply to the whole chain: first position only, and
-	// only the Identity filter can be written so far.
+	// The chain which ends up in the file consists of the filters argument
+	// followed by the filters already named in the dictionary (a leading
+	// Crypt entry of the dictionary stays first).  The rules for Crypt
+	// filters apply to the whole chain: first position only, and only the
+	// Identity filter can be written so far.  A Crypt argument together
+	// with a dictionary chain is refused.
 	dictCrypt, numDictFilters, err := dictCryptFilter(streamDict)
 	if err != nil {
 		return nil, fmt.Errorf("Writer.OpenStream: %w", err)
